@@ -20,7 +20,7 @@ class C08(Prop):
             "shared below the top); distinct = distinct recipe JSON")
     ASSUMPTIONS = ["the top instance itself is not required to be unique (only instances below it)",
                    "uniquify's module-level name counter is reset before each case, as in a fresh process"]
-    N = {"quick": 2400, "thorough": 30000}
+    N = {"quick": 12000, "thorough": 100000}
 
     def cfg(self, tier):
         big = tier == "thorough"
